@@ -110,6 +110,7 @@ def main(argv=None):
         fn["backend"] = "cbmc %s (minisat) via goto-instrument --dfcc" % ''
         fn["solver_s"] = r["tool_s"].get("cbmc")
         fn["replaced_callees"] = list(spec.calls) + list(spec.shims)
+        spec_calls_plain = [c.split("/")[0] for c in spec.calls]
         for c in fn["replaced_callees"]:
             trusted.add("contract of %s (replaced at call sites; %s)" % (c, "proved in its own unit" if c in spec.calls else "shim: assumed"))
         probes = [o for o in r["obligations"] if o["label"] == '__probe__']
